@@ -12,7 +12,7 @@ TEXT = {
     "C06": "partial proof: rendering = denotation proved on the model for multi-block documents of any length over paragraphs, headings, thematic breaks, fenced code with info strings, emphasis paragraphs (= the spec's delimiter procedure) and block quotes of text lines (C06_blocks_ext2), plus a reference slice; for general documents: denotation oracle on serialised abstract documents (lib/docgen.py) plus model/implementation HTML correspondence",
     "C07": "full proof on the model: C07_final (for every input, every reference matcher, every configuration without tag filter, rendered HTML is in the safe grammar); C07_render_safeW holds for every tree whose leaves satisfy bokW and the run evaluates bokW on the implementation's own trees; tie: model renderer on the implementation's tree = implementation's bytes",
     "C08": "full proof on the stream-layer model: readline under any read schedule (readline_sim), whole NextBlock (next_block_sim), whole runs and the fault clause (C08_stream_eq, C08_fault), any block machine satisfying three stated laws; tie: streaming implementation under generated schedules/faults vs the in-memory model on the delivered prefix",
-    "C09": "proof on the model: block-quote clause full as the property states it, for every tab-free document (parseFull_quote: one quote whose children are the rewritten blocks of D under the position map; renderDoc_quote: safe-mode rendering = blockquote around the rendering of D's blocks); list-item clause full at the block layer for every marker and 1-4 spaces (parseBlocks_item), its inline pass and rendering on slices; tie: nesting oracle on the implementation (D vs contents of quote(D) / item(D), safe-mode HTML) plus model/implementation correspondence on each variant",
+    "C09": "full proof on the model of both clauses as the property states them, for every tab-free document: quoting (parseFull_quote, renderDoc_quote) and list-indenting under any bullet or ordered marker with 1-4 spaces (parseFull_item, renderDoc_item) give one container whose children are the rewritten blocks of D under the explicit position map, and the safe-mode rendering is the container's tags around the renderings of D's blocks (paragraphs without <p> exactly when the one-item list is tight); tie: nesting oracle on the implementation (D vs contents of quote(D) / item(D), safe-mode HTML) plus model/implementation correspondence on each variant",
     "C10": "full proof on the model: Walk with the renderer's callbacks writes exactly the structural reading renderB of the tree, for every block and configuration (C10_appendBlock, walk_is_spec); tie: the structural renderer run on the implementation's own tree dump reproduces the implementation's bytes in all 30 configurations; determinism / tree untouched / joining observed on the implementation",
     "C11": "proof that the openers_bottom search bounds never change the result of process-emphasis (abstract lists of any length, and on the transcription of processEmphasis); full statement proved end to end on a vertical slice (C11_slice2: lines of any length over letters, digits, spaces, '*', '_', most ASCII punctuation, Unicode white space, Unicode punctuation and non-ASCII letters from explicit families parse to exactly the forest the spec's delimiter-run procedure denotes); flanking flags and tokenisation tied by exhaustive correspondence up to a length bound; oracle = independent transcription of the spec procedure without the bound",
     "C12": "partial proof: closure clause for every input and matcher (C12_closure), Extract = first-wins fold in source order; label normalisation = the CommonMark definition for labels in one span, adjacent spans, and spans with gaps (container prefixes, Indent entries) under the entry conditions the block layer establishes (label_norm_spans); end to end on a slice (C12_refslice); case-folding table generated from x/text and judged against an independent normaliser",
